@@ -36,16 +36,17 @@ scf.for %16 = %non_const to %c64 step %c8 {
 // CHECK-NEXT:      "test.op"(%0) : (index) -> ()
 // CHECK-NEXT:    }
 
-scf.for %i = %c0 to %c64 step %c5 {
+scf.for %i = %c0 to %c64 step %c8 {
     scf.for %j = %c0 to %c8 step %c3 {
         %k = arith.constant 8 : index
         "test.op"(%k) : (index) -> ()
     }
 }
 
-// CHECK-NEXT:    %{{.*}} = arith.constant 2 : index
+// The inner loop runs ceil(8 / 3) = 3 times
+// CHECK-NEXT:    %{{.*}} = arith.constant 3 : index
 // CHECK-NEXT:    %{{.*}} = arith.muli %c64, %{{.*}} : index
-// CHECK-NEXT:    scf.for %{{.*}} = %c0 to %{{.*}} step %c5 {
+// CHECK-NEXT:    scf.for %{{.*}} = %c0 to %{{.*}} step %c8 {
 // CHECK-NEXT:      %{{.*}} = arith.constant 8 : index
 // CHECK-NEXT:      "test.op"(%{{.*}}) : (index) -> ()
 // CHECK-NEXT:    }
@@ -359,6 +360,35 @@ scf.for %16 = %c0 to %c64 step %c8 {
 
 
 // Failures no induction variables:
+
+// Outer step must evenly divide a constant outer ub
+scf.for %i = %c0 to %c64 step %c5 {
+    scf.for %j = %c0 to %c8 step %c3 {
+        %k = arith.constant 8 : index
+        "test.op"(%k) : (index) -> ()
+    }
+}
+
+// CHECK-NEXT:    scf.for %{{.*}} = %c0 to %c64 step %c5 {
+// CHECK-NEXT:        scf.for %{{.*}} = %c0 to %c8 step %c3 {
+// CHECK-NEXT:            %{{.*}} = arith.constant 8 : index
+// CHECK-NEXT:            "test.op"(%{{.*}}) : (index) -> ()
+// CHECK-NEXT:        }
+// CHECK-NEXT:    }
+
+scf.for %i = %c0 to %non_const step %c5 {
+    scf.for %j = %c0 to %c8 step %c3 {
+        %k = arith.constant 8 : index
+        "test.op"(%k) : (index) -> ()
+    }
+}
+
+// CHECK-NEXT:    scf.for %{{.*}} = %c0 to %non_const step %c5 {
+// CHECK-NEXT:        scf.for %{{.*}} = %c0 to %c8 step %c3 {
+// CHECK-NEXT:            %{{.*}} = arith.constant 8 : index
+// CHECK-NEXT:            "test.op"(%{{.*}}) : (index) -> ()
+// CHECK-NEXT:        }
+// CHECK-NEXT:    }
 
 scf.for %i = %c1 to %c64 step %c5 {
     scf.for %j = %c0 to %c8 step %c3 {
